@@ -329,6 +329,7 @@ func (e *Engine) guardCheck(f *Frame, st *State, l *Loc, write bool, pos token.P
 		return
 	}
 	if e.freshObjs[l.Base] {
+		e.assumed["guarded_by: fields of an object allocated by the function under verification may be accessed without its lock (initialisation before sharing; publication is not tracked)"] = true
 		return
 	}
 	tn := typeName(l.RootT)
@@ -804,4 +805,57 @@ func (e *Engine) siteReturn(f *Frame, st *State, in *ssa.Return, vals []Val) {
 		}
 		e.siteEval(f, st, sc, ctx, in.Pos(), fmt.Sprintf("return #%d", ord))
 	}
+}
+
+// funcFieldStore: a closure stored into a struct field with a declared lock footprint must itself declare (and, being
+// under contract, is then checked to take) no other locks than the field's declaration allows.
+func (e *Engine) funcFieldStore(f *Frame, st *State, in *ssa.Store, v Val) {
+	fa, ok := in.Addr.(*ssa.FieldAddr)
+	if !ok {
+		return
+	}
+	pt := fa.X.Type().Underlying().(*types.Pointer).Elem()
+	stt := pt.Underlying().(*types.Struct)
+	key := typeName(pt) + "." + stt.Field(fa.Field).Name()
+	var allowed []string
+	declared := false
+	for _, cf := range e.P.Contracts {
+		if a, ok := cf.FuncFields[key]; ok {
+			allowed, declared = a, true
+		}
+	}
+	if !declared {
+		return
+	}
+	if v.Fn != nil && v.Fn.Fn.Synthetic != "" && strings.Contains(v.Fn.Fn.Name(), "$bound") {
+		// a method value; of a third-party interface here (the SDK's Registration)
+		e.assumed["method values of third-party interfaces stored in "+key+" take none of the lock classes under contract"] = true
+		return
+	}
+	if v.Fn == nil {
+		// an unknown function value (e.g. a method value of a third-party interface): its lock footprint is assumed to be
+		// disjoint from the SDK-internal lock classes
+		e.assumed["function values of third-party origin stored in "+key+" take none of the lock classes under contract"] = true
+		return
+	}
+	c := e.P.ContractFor(v.Fn.Fn)
+	goal := "true"
+	desc := "closure " + funcKey(v.Fn.Fn) + " stored in " + key + " declares only the lock classes the field allows"
+	if c == nil {
+		goal = "false"
+		desc = "closure " + funcKey(v.Fn.Fn) + " stored in " + key + " has no contract declaring its locks"
+	} else {
+		for _, a := range c.Acquires {
+			okc := false
+			for _, al := range allowed {
+				if al == a {
+					okc = true
+				}
+			}
+			if !okc {
+				goal = "false"
+			}
+		}
+	}
+	e.ob(f, "funcfield."+key, desc, st.cond, goal, in.Pos())
 }
